@@ -14,7 +14,8 @@
 //! Without installed callbacks, the atomics behave exactly as without this feature.
 
 use core::mem::transmute;
-use core::sync::atomic::{AtomicUsize, Ordering};
+use core::ptr::null_mut;
+use core::sync::atomic::{AtomicPtr, Ordering};
 
 use crate::bitfield::RowId;
 
@@ -38,43 +39,44 @@ pub type BeforeFn = fn(op: Op, addr: usize, size: usize);
 pub type AfterFn = fn(op: Op, addr: usize, size: usize, success: bool);
 pub type CasFailFn = fn(addr: usize, size: usize) -> bool;
 
-static BEFORE: AtomicUsize = AtomicUsize::new(0);
-static AFTER: AtomicUsize = AtomicUsize::new(0);
-static CASFAIL: AtomicUsize = AtomicUsize::new(0);
+// Function pointers are kept as pointers (not integers) to preserve their provenance.
+static BEFORE: AtomicPtr<()> = AtomicPtr::new(null_mut());
+static AFTER: AtomicPtr<()> = AtomicPtr::new(null_mut());
+static CASFAIL: AtomicPtr<()> = AtomicPtr::new(null_mut());
 
 /// Install the hooks. They stay installed for the lifetime of the process.
 pub fn install(before: BeforeFn, after: AfterFn, casfail: CasFailFn) {
-    AFTER.store(after as usize, Ordering::SeqCst);
-    CASFAIL.store(casfail as usize, Ordering::SeqCst);
-    BEFORE.store(before as usize, Ordering::SeqCst);
+    AFTER.store(after as *mut (), Ordering::SeqCst);
+    CASFAIL.store(casfail as *mut (), Ordering::SeqCst);
+    BEFORE.store(before as *mut (), Ordering::SeqCst);
 }
 
 /// Returns if hooks are installed.
 #[inline]
 pub fn enabled() -> bool {
-    BEFORE.load(Ordering::Relaxed) != 0
+    !BEFORE.load(Ordering::Relaxed).is_null()
 }
 
 #[inline]
 pub(crate) fn before(op: Op, addr: usize, size: usize) {
     let f = BEFORE.load(Ordering::Relaxed);
-    if f != 0 {
-        (unsafe { transmute::<usize, BeforeFn>(f) })(op, addr, size);
+    if !f.is_null() {
+        (unsafe { transmute::<*mut (), BeforeFn>(f) })(op, addr, size);
     }
 }
 
 #[inline]
 pub(crate) fn after(op: Op, addr: usize, size: usize, success: bool) {
     let f = AFTER.load(Ordering::Relaxed);
-    if f != 0 {
-        (unsafe { transmute::<usize, AfterFn>(f) })(op, addr, size, success);
+    if !f.is_null() {
+        (unsafe { transmute::<*mut (), AfterFn>(f) })(op, addr, size, success);
     }
 }
 
 #[inline]
 pub(crate) fn casfail(addr: usize, size: usize) -> bool {
     let f = CASFAIL.load(Ordering::Relaxed);
-    f != 0 && (unsafe { transmute::<usize, CasFailFn>(f) })(addr, size)
+    !f.is_null() && (unsafe { transmute::<*mut (), CasFailFn>(f) })(addr, size)
 }
 
 /// Construct the bitfield row hint for `LLFree::lower.get`,
